@@ -529,6 +529,31 @@ pub fn run_group_env(cd: &CaseDir, opts: &GOpts, roots: &[OsString], format: &st
     GroupRun { out, report, cmdline }
 }
 
+/// Runs `fclones group` from another working directory (`cwd`), with `--base-dir` naming the tree root
+/// relative to it; the roots stay relative to the tree root.
+pub fn run_group_base_dir(cd: &CaseDir, opts: &GOpts, roots: &[OsString], format: &str, cwd: &Path, base_dir_arg: &str) -> GroupRun {
+    let mut r = Run::fclones(cd).cwd(cwd).arg("group").args(opts.args()).arg("--base-dir").arg(base_dir_arg);
+    if format != "default" {
+        r = r.arg("-f").arg(format);
+    }
+    r = r.args(roots);
+    if let Some(d) = opts.disk_env() {
+        r = r.env("FCLONES_VERIF_DISK_KIND", d);
+    }
+    let cmdline = format!("cd {} && {}", cwd.display(), r.cmdline());
+    let out = r.run();
+    let report = if out.ok() {
+        match format {
+            "json" => parse_json(&out.stdout),
+            "default" => parse_text(&out.stdout),
+            _ => Err("format not parsed here".into()),
+        }
+    } else {
+        Err(format!("exit {:?}", out.code))
+    };
+    GroupRun { out, report, cmdline }
+}
+
 /// Runs `fclones group` with the input paths given as arguments.
 pub fn run_group(cd: &CaseDir, opts: &GOpts, roots: &[OsString], format: &str, extra: &[OsString]) -> GroupRun {
     run_group_env(cd, opts, roots, format, extra, false, &[])
